@@ -995,6 +995,9 @@ func (cpu *CPU) Step() (int, bool) {
 		log.Println(fmt.Sprintf("unknown addressing mode PC $%02x:%04x", cpu.RK, cpu.PC))
 	}
 
+	// the address bus is 24 bits wide: indexed effective addresses wrap to bank $00
+	ea &= 0x00ffffff
+
 	// cycles adjust calculation
 	// M,X and DL here      - here
 	// X and Page crossing  - here
